@@ -90,6 +90,23 @@ pub fn corpus(tier: &str) -> Corpus {
         gen::builtins(0, &mut |cs| add(&mut c, cs, 59, 1));
         gen::nfacts(0, &mut |cs| add(&mut c, cs, 37, 1));
     }
+    // a variable aliased to a newer, still unbound variable (or the other way round) and then
+    // dereferenced by a built-in: the binding chain leaves the part of the substitution set
+    // that has been written so far
+    let bips = [
+        "$X == 1", "$X < 2", "$X >= $Y", "print($X), nl", "print_list([$X, a])", "count([$X, b], $N)", "append($X, [a], $O)",
+        "functor($X, $F)", "include($X, [a, b], $O)", "$O = join($X, b)", "$Y = f($Z), $X == 1", "not($X == 1)",
+    ];
+    for (i, b) in bips.iter().enumerate() {
+        if !thorough && i % 2 == 1 {
+            continue;
+        }
+        for alias in ["$X = $Y", "$Y = $X", "$X = $Y, $Y = $W", "$W = $Y, $X = $W"] {
+            c.queries += 2;
+            *c.families.entry("alias-then-builtin".into()).or_insert(0) += 1;
+            c.lines.push(format!("next\tcheck($Q) ;; check(1)\tcheck($X) :- {}, {}.", alias, b));
+        }
+    }
     // timer histories: the timer thread fires in the middle of a search, then further queries run
     let follow: Vec<(&str, Vec<&str>)> = vec![
         ("p($Z)", vec!["q(a).", "q(b).", "p($X) :- q($X)."]),
